@@ -178,6 +178,25 @@ PROPS = {
             "setup() is a lookup whose result is discarded; Service::from_registry for brokers goes through the same code",
         ],
     },
+    "C16": {
+        "modules": ["Hannibal.Props.C16", "Hannibal.Props.C16Current"],
+        "theorems": ["Hannibal.C16_kept", "Hannibal.C16_released", "Hannibal.sys_actor_run", "Hannibal.C16_lifetime",
+                     "Hannibal.C16_broadcast", "Hannibal.C16_lifetime_current", "Hannibal.C16_broadcast_current"],
+        "driver": "sys16",
+        "cases": {"quick": {"C16": 2000}, "thorough": {"C16": 40000}},
+        "assumptions": COMMON_ASSUMPTIONS + [
+            "'every registered live child takes the broadcast up exactly once' (monC16q) and 'released children drain "
+            "and stop gracefully by quiescence' (monC05q on every actor's projection) are liveness clauses judged on "
+            "real quiescent traces; the proved parts are at-most-once / only-registered (C16_broadcast), kept / "
+            "released (C16_kept, C16_released) and the lifetime safety clause (C16_lifetime)",
+            "the children map lives in the Context, which is dropped with the loop future: modelled as 'the step that "
+            "ends the parent's task drops every child handle' and validated by acceptance of real traces with every "
+            "termination cause (stop, drop, halt, handler panic, ctx.stop, cancellation at the j-th poll, restart)",
+            "send_to_children uses the forcing path and ignores errors (Wiring.path sendToChildren is extracted; "
+            "children of the harness have unbounded mailboxes)",
+            "a client never uses a handle it moved into a parent (Sys.clientOk) - true of Rust move semantics",
+        ],
+    },
     "C10": {
         "modules": ["Hannibal.Props.C10", "Hannibal.Props.C10Current"],
         "theorems": ["Hannibal.C10_holds", "Hannibal.C10_current"],
